@@ -408,12 +408,14 @@ Print Assumptions C20_entry_list_on_the_rule_slice_refuted.
    leading backslash per literal); the tail holds no further complete unescaped placeholder.  The decomposition is the
    LEFTMOST one (leftmost_piece): every opening brace inside a literal is escaped (preceded by a
    backslash), and the closing brace that ends a placeholder is the first unescaped one after its
-   opening brace - no placeholder occurrence is skipped, none is read twice. *)
+   opening brace - no placeholder occurrence is skipped, none is read twice; and the tail
+   (unpaired_tail) has either no unescaped opening brace at all or a last one after which no
+   unescaped closing brace follows. *)
 Theorem C20_replace_scan_decomposition :
   forall (gs : bytes -> bytes) (fmt : bytes),
   exists ps tail,
     fmt = pieces_cat ps ++ tail /\ Forall leftmost_piece ps /\
-    (has_brace fmt = true -> scan_step tail = Ok None) /\
+    (has_brace fmt = true -> scan_step tail = Ok None) /\ unpaired_tail tail /\
     template fmt = Ok (pieces_template ps tail) /\
     expand gs fmt = Ok (pieces_out gs ps tail).
 Proof. exact replace_scan_decomposition. Qed.
